@@ -278,6 +278,14 @@ def decl_sources(style: str, u: str) -> dict[str, tuple[str, list[tuple[str, str
         + ([(t("K1p"), f"Ka{u}", "param", "p"), (t("K1ma"), f"ma{u}", "param", "a"), (t("K1mr"), f"ma{u}", "result", rname)] if structured else [(t("K1p"), f"Ka{u}", "description", None), (t("K1ma"), f"ma{u}", "description", None)])
         + ([(t("K1x"), "x", "description", None)] if style in ("NUMPYDOC", "GOOGLE") else []),
     )
+    # two unnamed results, only the SECOND one is described: its text belongs to result_2 (numpydoc only)
+    if style == "NUMPYDOC":
+        out["F4"] = (
+            f"def fd{u}(a: int) -> tuple[int, float]:\n    \"\"\"{t('F4S')}.\n\n    Returns\n    -------\n    int\n    float\n        {t('F4r')} second result.\n    \"\"\"\n    return a, 1.5\n",
+            [(t("F4S"), f"fd{u}", "description", None), (t("F4r"), f"fd{u}", "result", "result_2")],
+        )
+    else:
+        out["F4"] = (f"def fd{u}(a: int) -> int:\n" + d(t("F4S") + ".", t("F4D"), 4) + "    return a\n", [(t("F4S"), f"fd{u}", "description", None), (t("F4D"), f"fd{u}", "description", None)])
     out["K34"] = (
         f"class Kc{u}:\n" + d(t("K3S") + ".", t("K3D"), 4, attrs=[("xs" + u, "int", t("K3x")), ("ys" + u, "str", t("K3y"))]) + f"\n    xs{u}: int = 1\n    ys{u}: str = 'a'\n\n\n"
         f"class Kd{u}:\n    xs{u}: int = 2\n    ys{u}: str = 'b'\n",
@@ -315,8 +323,8 @@ def part_b(rep: Report, tier: str) -> None:
     units = []  # (label, style, module name, source, expectations, module token)
     uid = itertools.count(1)
     for style in ["PLAINTEXT", *STRUCT]:
-        names = ["F1", "F2", "F3", "K1", "K2", "K34"]
-        perms = list(itertools.permutations(names)) if tier == "thorough" else [p for i, p in enumerate(itertools.permutations(names)) if i % 61 == 0] + [tuple(names)]
+        names = ["F1", "F2", "F3", "F4", "K1", "K2", "K34"]
+        perms = list(itertools.permutations(names)) if tier == "thorough" else [p for i, p in enumerate(itertools.permutations(names)) if i % 419 == 0] + [tuple(names)]
         for perm in perms:
             u = f"{next(uid):05d}"
             ds = decl_sources(style, u)
